@@ -1,6 +1,7 @@
 import ShellOp.Proofs.MetricsRepl
 import ShellOp.Proofs.MetricsU
 import ShellOp.Proofs.MetricsSim
+import ShellOp.Proofs.MetricsSimU
 /-!
 # C16 — hook metrics: validated as a batch; grouped metrics replaced, not accumulated
 
@@ -382,15 +383,6 @@ theorem type_clash_witness :
 
 /-! ## Ungrouped updates -/
 
-/-- the vec family and the update of an ungrouped operation. -/
-def uFam (action : String) : Fam :=
-  if action = "add" then .counter else if action = "set" then .gauge else .histogram
-
-def uUpd (action : String) (v : Int) (e : UEntry) : UEntry :=
-  if action = "add" then { e with val := e.val + v }
-  else if action = "set" then { e with val := v }
-  else { e with val := e.val + v, cnt := e.cnt + 1 }
-
 /-- **C16.2** `ungrouped_update` (partial: hypothesis `NoNameClash` — the metric's vec exists with
 this type and exactly these label names, or the name is free; a counter is not decreased): one
 ungrouped `add` / `set` / `observe` updates exactly the named series — the one whose labels are the
@@ -400,37 +392,56 @@ untouched. -/
 theorem ungrouped_update_partial (st : State) (common : Labels) (op : Op) (v : Int)
     (ha : op.action = "add" ∨ op.action = "set" ∨ (op.action = "observe" ∧ op.buckets = true))
     (hv : op.value = some v) (hneg : op.action = "add" → 0 ≤ v)
-    (hNoClash :
-      (∃ vec, st.vecs.find? (fun x => x.name == op.name && x.fam == uFam op.action) = some vec ∧
-          vec.labelNames = (mergeLabels op.labels common).map (·.1)) ∨
-      (st.vecs.find? (fun x => x.name == op.name && x.fam == uFam op.action) = none ∧ st.registered op.name = false)) :
+    (hNoClash : UOk st common op) :
     ∃ st', sendOneV0 common st op = some st' ∧ st'.gentries = st.gentries ∧ st'.colls = st.colls ∧
       ∀ n' k', uLookup st'.uentries n' k' =
         if n' = op.name ∧ k' = mergeLabels op.labels common then
           some (uUpd op.action v ((uLookup st.uentries op.name (mergeLabels op.labels common)).getD
             { name := op.name, key := mergeLabels op.labels common, val := 0 }))
         else uLookup st.uentries n' k' := by
-  rcases ha with ha | ha | ⟨ha, hb⟩
-  · have hnn : ¬ v < 0 := by have := hneg ha; omega
-    have hnn' : decide (v < 0) = false := by simpa using hnn
-    have hok := ungroupedApply_ok st .counter op.name (mergeLabels op.labels common)
-      (fun e => { e with val := e.val + v }) (by simpa [uFam, ha] using hNoClash)
-    refine ⟨_, by simp [sendOneV0, ha, hv, hnn'], hok.2.1, hok.2.2, ?_⟩
-    intro n' k'
-    rw [hok.1, uLookup_uUpsert (fun e => { e with val := e.val + v }) (fun e => ⟨rfl, rfl⟩)]
-    simp [uUpd, ha]
-  · have hok := ungroupedApply_ok st .gauge op.name (mergeLabels op.labels common)
-      (fun e => { e with val := v }) (by simpa [uFam, ha] using hNoClash)
-    refine ⟨_, by simp [sendOneV0, ha, hv], hok.2.1, hok.2.2, ?_⟩
-    intro n' k'
-    rw [hok.1, uLookup_uUpsert (fun e => { e with val := v }) (fun e => ⟨rfl, rfl⟩)]
-    simp [uUpd, ha]
-  · have hok := ungroupedApply_ok st .histogram op.name (mergeLabels op.labels common)
-      (fun e => { e with val := e.val + v, cnt := e.cnt + 1 }) (by simpa [uFam, ha] using hNoClash)
-    refine ⟨_, by simp [sendOneV0, ha, hv, hb], hok.2.1, hok.2.2, ?_⟩
-    intro n' k'
-    rw [hok.1, uLookup_uUpsert (fun e => { e with val := e.val + v, cnt := e.cnt + 1 }) (fun e => ⟨rfl, rfl⟩)]
-    simp [uUpd, ha]
+  obtain ⟨st', h1, h2, h3, _, h5⟩ := sendOneV0_ok st common op v ha hv hneg hNoClash
+  exact ⟨st', h1, h2, h3, h5⟩
+
+/-- the state in which the ungrouped operations of a batch are applied: after the grouped phase. -/
+def afterGroups (st : State) (common : Labels) (ops : List Op) (order : List Nat) : State :=
+  order.foldl (fun st g => applyGroupOperations common st g (ops.filter (·.group == g))) st
+
+/-- **C16.2 against the reference registry**: if the store and the reference registry agree on
+every ungrouped series, then after a valid batch whose ungrouped operations are admissible when
+they are applied (`UOk`: the vec exists with this type and these label names or the name is free;
+operations on one name agree on type and label names; counters are not decreased) the call
+succeeds and they still agree on every ungrouped series (value and, for histograms, count). -/
+theorem ungrouped_view_refines_partial (st : State) (ref : List Spec.RSeries) (common : Labels) (ops : List Op)
+    (order : List Nat) (hv : validBatch ops = true)
+    (hok : ∀ op ∈ ops, op.group = 0 → UOk (afterGroups st common ops order) common op)
+    (hsame : ∀ op ∈ ops, op.group = 0 → ∀ op' ∈ ops, op'.group = 0 → op'.name = op.name →
+      op'.action = op.action ∧ (mergeLabels op'.labels common).map (·.1) = (mergeLabels op.labels common).map (·.1))
+    (hneg : ∀ op ∈ ops, op.group = 0 → op.action = "add" → ∀ v, op.value = some v → 0 ≤ v)
+    (hsim : ∀ n k, uview st n k = rview0 ref n k) :
+    (sendBatch st common ops order).2 = true ∧
+      ∀ n k, uview (sendBatch st common ops order).1 n k = rview0 (Spec.applyBatch ref common ops).1 n k := by
+  have hmemf : ∀ {op : Op}, op ∈ ops.filter (·.group == 0) → op ∈ ops ∧ op.group = 0 := by
+    intro op h; have := List.mem_filter.mp h; exact ⟨this.1, by simpa using this.2⟩
+  have h0 : 0 ∉ groupsOf ops := fun h => ((mem_groupsOf ops 0).mp h).1 rfl
+  have hvalid : ∀ op ∈ ops.filter (·.group == 0), validOp op = true ∧ op.group = 0 := by
+    intro op h
+    exact ⟨(List.all_eq_true.mp (by simpa [validBatch] using hv)) op (hmemf h).1, (hmemf h).2⟩
+  -- the reference before its ungrouped fold agrees with the store after the grouped phase
+  have hfresh : (groupsOf ops).flatMap (fun g => (Spec.written common (ops.filter (·.group == g))).map fun (k, v) =>
+      ({ name := k.1, labels := k.2, group := g, val := v } : Spec.RSeries)) = (groupsOf ops).flatMap (freshOf common ops) := rfl
+  have hsim1 : ∀ n k, uview (afterGroups st common ops order) n k =
+      rview0 (ref.filter (fun s => !(groupsOf ops).contains s.group) ++ (groupsOf ops).flatMap (freshOf common ops)) n k := by
+    intro n k
+    have hu : (afterGroups st common ops order).uentries = st.uentries := (foldl_groups_u common ops order st).2
+    unfold uview rview0
+    rw [hu, rLookup0_append, rLookup0_kept _ _ h0, rLookup0_fresh _ _ _ h0]
+    simpa [uview, rview0] using hsim n k
+  have := sendBatchV0_refines common (ops.filter (·.group == 0)) hvalid
+    (fun op h => hneg op (hmemf h).1 (hmemf h).2)
+    (fun op h op' h' => hsame op (hmemf h).1 (hmemf h).2 op' (hmemf h').1 (hmemf h').2)
+    (afterGroups st common ops order) _ (fun op h => hok op (hmemf h).1 (hmemf h).2) hsim1
+  simp only [sendBatch, hv, Bool.not_true, Bool.false_eq_true, if_false, Spec.applyBatch, hfresh]
+  exact ⟨this.1, this.2.2⟩
 
 /-- **C16.2** `ungrouped_update`: on a name that is free in the registry, an ungrouped `set`
 creates the vec with the operation's label names plus `hook`, and the series with the value. -/
